@@ -82,7 +82,7 @@ META = {
         "normalisations inside the stdlib tokenizer that cannot be inverted from callback arguments (case of names, whitespace "
         "inside tags, quote style, value-less attributes, marked sections, bogus comments) - listed in the evidence, outside the "
         "property's well-formed grammar; implicit IndexError/TypeError of arbitrary expressions beyond the decision tables; "
-        "recursion depth of render/walk/find/strip/deepcopy on pathologically deep trees (a runtime quantity: ~1000 nested elements raise RecursionError; parsing itself is iterative); legacy void elements other than 'param' "
+        "input that ends inside an unterminated construct (flushed as data by the close() call in feed(); not well-formed, no clause here); recursion depth of render/walk/find/strip/deepcopy on pathologically deep trees (a runtime quantity: ~1000 nested elements raise RecursionError; parsing itself is iterative); legacy void elements other than 'param' "
         "(basefont, bgsound, frame, keygen are not in the table today)"
     ),
     "trusted_base": [
